@@ -45,6 +45,8 @@ ITER = st.fixed_dictionaries({'k': st.one_of(st.none(), st.integers(1, 6)), 'ove
 def _case_align(draw):
     c = draw(_base())
     c['iter'] = draw(ITER)
+    c['rangefactor'] = draw(st.sampled_from([1, 1.5, 2, 2, 3, 10, 1000]))
+    c['alpha'] = draw(st.sampled_from([0.1, 0.3, 0.3, 0.9]))
     return c
 
 
@@ -198,10 +200,79 @@ def run_align(case):
                                  % (ms[a][0], ms[b][0], shared))
         if len(ms) >= 2:
             res.cls('kbest>=2')
+        _other_routes(res, eng, sa, case, pen, expm, ms, cap)
     if 'py' in mfs and 'c' in mfs and len(mfs['py']) == len(mfs['c']):
         if not all(ref.close(a, b) for a, b in zip(mfs['py'], mfs['c'])):
             res.fail('engines-differ', 'python %r vs C %r' % (mfs['py'], mfs['c']))
     return res
+
+
+def _other_routes(res, eng, sa, case, pen, expm, ms, cap):
+    """The other public routes to the same matches: get_match / matching_function_* for EVERY end point (segment and
+    path must realise the matching-function value there, as for the best match), the *_fast spellings, and the two
+    iterators with another stopping rule (best_matches, best_matches_knee), which must yield a prefix of what
+    kbest_matches(k=None) yields for the same overlap / length limits."""
+    import itertools
+    it = case['iter']
+    ls = len(case['series'])
+    for e in range(ls):
+        got, exc = libcall(lambda: (lambda m: (m.segment, m.path, float(m.value), float(m.distance), int(m.idx)))(sa.get_match(e)))
+        if exc:
+            res.fail('%s:get_match:%s' % (eng, exc), 'get_match(%d) raised' % e)
+            break
+        _check_match(res, eng + ':any-end', case, pen, *got, expm=expm)
+        seg2, exc = libcall(lambda: ([int(x) for x in sa.matching_function_segment(e)],
+                                     int(sa.matching_function_endpoint(e)), int(sa.matching_function_startpoint(e)),
+                                     [(int(r), int(c)) for r, c in sa.matching_function_bestpath(e)]))
+        if exc:
+            res.fail('%s:mf-helpers:%s' % (eng, exc), 'matching_function_segment/endpoint/startpoint/bestpath(%d) raised' % e)
+            break
+        sg, ep, sp, bp = seg2
+        if sg != [int(got[0][0]), int(got[0][1])] or ep != e or sp != sg[0] or bp != [(int(r), int(c)) for r, c in got[1]]:
+            res.fail(eng + ':mf-helpers:inconsistent', 'end %d: segment %r endpoint %r startpoint %r bestpath %r, match says segment '
+                     '%r path %r' % (e, sg, ep, sp, bp[:6], got[0], got[1][:6]))
+            break
+    kw = {k: v for k, v in it.items() if k != 'k'}
+    full, exc = libcall(lambda: [_match_tuple(m) for m in itertools.islice(sa.kbest_matches(k=None, **kw), cap)])
+    if exc or len(full) >= cap:
+        return          # reported by the k-best part for the drawn k when it is a defect of the iterator itself
+    # the *_fast spellings
+    fast, exc = libcall(lambda: [_match_tuple(m) for m in itertools.islice(sa.kbest_matches_fast(**it), cap)])
+    if exc:
+        res.fail('%s:kbest_fast:%s' % (eng, exc), 'kbest_matches_fast raised for %r' % (it,))
+    elif fast != [(i, [int(x) for x in sg], v) for sg, _p, v, _d, i in ms]:
+        res.fail(eng + ':kbest_fast:differs', 'kbest_matches_fast(%r) yields %r, kbest_matches %r' % (it, fast[:4], ms[:4]))
+    bmf, exc = libcall(lambda: _match_tuple(sa.best_match_fast()))
+    if exc:
+        res.fail('%s:best_match_fast:%s' % (eng, exc), 'best_match_fast raised')
+    elif not ref.close(bmf[2], min(expm)):
+        res.fail(eng + ':best_fast:not-minimal', 'best_match_fast value %r, minimum %r' % (bmf[2], min(expm)))
+    # range-factor iterator
+    rf = case.get('rangefactor', 2)
+    for name, call in (('best_matches', lambda: sa.best_matches(max_rangefactor=rf, **kw)),
+                       ('best_matches_fast', lambda: sa.best_matches_fast(max_rangefactor=rf, **kw)),
+                       ('best_matches_knee', lambda: sa.best_matches_knee(alpha=case.get('alpha', 0.3), **kw)),
+                       ('best_matches_knee_fast', lambda: sa.best_matches_knee_fast(alpha=case.get('alpha', 0.3), **kw))):
+        got, exc = libcall(lambda: [_match_tuple(m) for m in itertools.islice(call(), cap)])
+        if exc:
+            res.fail('%s:%s:%s' % (eng, name, exc), '%s raised for %r' % (name, kw))
+            continue
+        if got != full[:len(got)]:
+            res.fail('%s:%s:not-a-prefix' % (eng, name), '%s(%r) yields %r, kbest_matches(k=None) yields %r'
+                     % (name, kw, got[:4], full[:4]))
+            continue
+        if name.startswith('best_matches_knee') or not full:
+            continue
+        bound = full[0][2] * rf
+        if any(v > bound * (1 + 1e-9) + 1e-300 for _i, _s, v in got):
+            res.fail('%s:%s:beyond-range' % (eng, name), 'yielded values %r, first * max_rangefactor = %r'
+                     % ([v for _i, _s, v in got], bound))
+        nxt = full[len(got):len(got) + 1]
+        if nxt and nxt[0][2] < bound * (1 - 1e-9) - 1e-300:
+            res.fail('%s:%s:stopped-early' % (eng, name), 'stopped after %d matches although the next one (%r) is within '
+                     'first * max_rangefactor = %r' % (len(got), nxt[0], bound))
+        if len(got) < len(full):
+            res.cls('rangefactor-stops-early')
 
 
 def _check_match(res, tag, case, pen, seg, path, val, dist, idx, expm):
